@@ -64,23 +64,26 @@ Tolerances (all derived here, see ``tol_pos``):
   - force_epoch: the derivative the integrator sees (``_differentialEquation``, the property's anchor, where the epoch is
     formed as start date + elapsed seconds) is evaluated for every split of one absolute instant and compared with the
     other split and with the acceleration of the independent reference force model at that absolute instant.  Error
-    sources: the Julian dates of two splits differ by their rounding (datetimeToJulianDate, jd + D / 86400, jd + t / 86400:
-    <= 4 ulp of 2.46e6 d = 1.6e-4 s); the library additionally rounds the datetime it hands to the Earth-rotation angle
-    to the millisecond (julianDateToDatetime), which is why all instants of this subcheck are whole milliseconds (every
-    split then rounds to the same datetime).  Tolerance = EPOCH_RES_S = 5e-3 s (30x that bound) times the reference's own
+    source: the Julian dates of two splits differ by their rounding (datetimeToJulianDate, jd + D / 86400, jd + t / 86400:
+    <= 4 ulp of 2.46e6 d = 1.6e-4 s; the sidereal angle, the third-body and the Sun positions are computed from that
+    Julian date; the datetime the library derives from it, rounded to the millisecond, only feeds precession / nutation,
+    1e-11 rad per second).  All instants of this subcheck are whole milliseconds, so that even that rounding is the same
+    for every split.  Tolerance = EPOCH_RES_S = 5e-3 s (30x the rounding bound) times the reference's own
     rate of change of the acceleration with the epoch at fixed state (difference over one second; 1e-11 km/s^2 per s in
-    LEO with a tesseral field, 1e-14 at GEO or with zonals + Moon + SRP only) + 2e-15 |a| for the summation of the terms
-    (library - reference measured <= 1e-16 |a| where the rate term vanishes).  Measured worst ratio 0.1; a 0.25 s slip
-    is 50 tolerances in LEO and >= 30 in every configuration (it is reported as ``epoch_slip_equivalent_s``).
+    LEO with a tesseral field, 1e-14 at GEO or with zonals + Moon + SRP only) + 4e-15 |a| (18 eps) for the summation of
+    the terms (library - reference measured <= 3.7 eps |a| where the rate term vanishes).  Measured worst ratio 0.08; a
+    0.25 s slip is 50 tolerances in LEO with a tesseral field and >= 20 in every configuration (the equivalent epoch slip
+    of every case is reported as ``epoch_slip_equivalent_s``); non-trivial when 0.25 s of epoch exceeds 10 tolerances.
   - epoch_resolution: the propagated states of two splits, RK45 on force models without SRP, spans >= 300 s.  Two error
-    sources: (a) the millisecond rounding above acts at every force evaluation of an integration (the instants are
-    arbitrary there), so the two runs see epochs up to 1 ms apart: 5e-3 s (x5) times the measured effect of moving the
-    epoch by one second, max(|dr|, |dv| / perigee rate); (b) the tiny force differences move the step-size controller
-    (step sizes, rarely an accept/reject decision), which changes the result by a fraction of the integrator's own error:
+    sources: (a) the Julian-date rounding above acts at every force evaluation of an integration, so the two runs see
+    epochs up to 1.6e-4 s apart: 5e-3 s (x30) times the measured effect of moving the epoch by one second,
+    max(|dr|, |dv| / perigee rate); (b) those tiny force differences move the step-size controller (step sizes, rarely
+    an accept/reject decision), which changes the result by a fraction of the integrator's own error:
     measured over 7280 RK45 comparisons (30 orbits a <= 12000 km, spans 300 / 1800 / 3600 s, whole / millisecond /
     typed-Julian-date starts, shifts 0.4 .. 86400.25 s, four seeds) <= 5.6e-5 tol_pos and 8.8e-5 tol_vel; floor
-    tol_pos / 1000.  Worst measured error / (a + b) 0.067; a 0.25 s slip is 4 - 40 tolerances in LEO (median 20-25,
-    >= 9 for 90 % of the cases at every span); a case is non-trivial when a 0.25 s slip exceeds 4 tolerances.  DOP853
+    tol_pos / 1000.  Worst measured error / (a + b) 0.067; a 0.25 s slip is 4 - 42 tolerances in LEO after 1800 s and an
+    hour, 0.4 - 38 after 300 s (median 20-25, >= 9 for 90 % of the cases at every span); a case is non-trivial when a
+    0.25 s slip exceeds 4 tolerances.  DOP853
     is not eligible: with 12-30 steps per LEO hour its controller noise was measured at up to 0.09 s of equivalent
     epoch slip (RK45: 4.6e-3 s at 300 s, 7.7e-4 s at an hour), so DOP853 configurations are decided by force_epoch.
 """
@@ -160,7 +163,7 @@ RULE = (
     "the comparisons above and through two more: force_epoch - _differentialEquation of every split object at both ends of the "
     "span (epoch-shift family: three start kinds x all whole and fractional shifts; epoch-split family: every factory-built "
     "object) against the other split and against the reference force model at the absolute instant, tolerance = 5 ms of epoch; "
-    "non-trivial when the split differs (D != 0, T > 0 or fractional start) and 0.1 s of epoch exceeds 10 tolerances - and "
+    "non-trivial when the split differs (D != 0, T > 0 or fractional start) and 0.25 s of epoch exceeds 10 tolerances - and "
     "epoch_resolution - propagated states of two splits under RK45 without SRP within 5 ms of measured epoch sensitivity + "
     "tol_pos/1000; non-trivial when a 0.25 s epoch slip exceeds 4 tolerances. "
     "Distinct by construction (lattice points); VERIF_SEED rotates RAAN/argument of perigee/third anomaly, the SP "
@@ -450,7 +453,7 @@ def bounds(tier, seed):
                                     "typed_julian_date": repr(_frac_starts(_jd0(seed))[1][1]), "shifts_s": FRAC_START_SHIFTS,
                                     "force_epoch_shifts_s": FRAC_START_SHIFTS + [1800.4],
                                     "propagated": "RK45, no SRP, span 300 s" + (" and 3600 s" if tier == "thorough" else "")},
-        "force_epoch": {"tolerance_epoch_s": EPOCH_RES_S, "floor": "2e-15 |a|", "instants": "both ends of every SP span; elapsed T of every epoch-split object"},
+        "force_epoch": {"tolerance_epoch_s": EPOCH_RES_S, "floor": "4e-15 |a|", "instants": "both ends of every SP span; elapsed T of every epoch-split object"},
         "epoch_resolution": {"integrator": "RK45", "configs": "no SRP", "spans_s": ">= 300", "tolerance": f"tol_pos/{RES_FLOOR_DIV:g} + {EPOCH_RES_S:g} s x measured sensitivity"},
         "epoch_split": {
             "elapsed_T_s": ES_T, "elapsed_T_s_sp_srp": ES_T_SRP, "spans_s": ES_SPANS, "rk45_one_hour_leo_T_s": "all" if tier == "thorough" else ES_RK45_HOUR_T,
@@ -935,8 +938,8 @@ def _res_tol(a, e, T, w0, w1):
 class _ForceRef:
     """Acceleration of the independent reference force model at absolute UTC instants (cached), with the tolerance of
     the force-epoch subcheck: EPOCH_RES_S seconds of the reference's own rate of change of the acceleration with the epoch
-    at fixed state (difference over one second: the Earth turns 7e-5 rad, linear), plus 2e-15 |a| for the summation of the
-    acceleration terms (measured library - reference at whole-second splits: <= 1e-16 |a| where the rate term vanishes)."""
+    at fixed state (difference over one second: the Earth turns 7e-5 rad, linear), plus 4e-15 |a| (18 eps) for the summation of
+    the acceleration terms (measured library - reference where the rate term vanishes: <= 3.7 eps |a|, five seeds)."""
 
     def __init__(self, kind):
         self.kind = kind
@@ -950,8 +953,8 @@ class _ForceRef:
             a0 = np.asarray(spref.acceleration(when, x[:3], x[3:], *args), dtype=float)
             a1 = np.asarray(spref.acceleration(when + timedelta(seconds=1.0), x[:3], x[3:], *args), dtype=float)
             rate = float(np.max(np.abs(a1 - a0)))
-            tol = EPOCH_RES_S * rate + 2e-15 * float(np.linalg.norm(a0))
-            self.cache[key] = (a0, rate, tol, bool(0.1 * rate > 10.0 * tol))
+            tol = EPOCH_RES_S * rate + 4e-15 * float(np.linalg.norm(a0))
+            self.cache[key] = (a0, rate, tol, bool(0.25 * rate > 10.0 * tol))
         return self.cache[key]
 
 
